@@ -4,12 +4,19 @@
    (b) two atoms, one bond of every type x default types;
    (c) three atoms, two bonds: all type pairs over three topologies;
    (d) 9 / 17 charged atoms among uncharged ones (continuation of "M  CHG");
-   (e) chains of 998..1001 atoms and 999 atoms with 1000 bonds (version switch), Big = TRUE only.
+   (e) chains of 998..1001 atoms and 999 atoms with 1000 bonds (version switch);
+   (f) few atoms with 999..1001 bonds (DenseCounts): the two counts of the counts line are limited
+       independently, so each is taken across the limit while the other stays far below it.
    Every input with version in {"None", "V2000", "V3000"}.  Per input (two steps, so that the
    workers share the work): out = [ctab, rd] once done. *)
 EXTENDS RdkitBridge, TLC
 
-CONSTANTS Rich, BigCounts      \* BigCounts: the atom counts of (e)
+CONSTANTS Rich, BigCounts,     \* BigCounts: the atom counts of (e)
+          DenseCounts          \* <<atoms, bonds>> of (f)
+
+(* values for DenseCounts (a cfg file cannot hold tuples) *)
+DenseQuick == {<<46, 999>>, <<46, 1000>>, <<60, 1001>>}
+DenseThorough == DenseQuick \cup {<<45, 990>>, <<100, 1000>>, <<200, 1203>>}
 
 VARIABLES inp, out, done
 vars == <<inp, out, done>>
@@ -53,9 +60,17 @@ Chain(n, nb) ==
   Mol([i \in 1..n |-> Atom(IF i % 2 = 0 THEN T("C") ELSE T("O"), <<R(i, 4), R(-i, 8), R(0, 1)>>, IF i % 250 = 0 THEN -1 ELSE 0)],
       [k \in 1..nb |-> IF k < n THEN <<k - 1, k, 1 + (k % 3)>> ELSE <<k - n, k - n + 2, 1>>])
 Big == {Chain(n, n - 1) : n \in BigCounts} \cup (IF 999 \in BigCounts THEN {Chain(999, 1000)} ELSE {})
+(* the first nb pairs i < j in lexicographic order: any number of bonds up to n (n - 1) / 2 on n atoms *)
+PairSeq(n) == Flat([i \in 1..(n - 1) |-> [d \in 1..(n - i) |-> <<i - 1, i - 1 + d>>]])
+Dense(n, nb) ==
+  Bind(PairSeq(n), LAMBDA ps :
+    Mol([i \in 1..n |-> Atom(IF i % 3 = 0 THEN T("N") ELSE T("C"), <<R(i, 2), R(-i, 8), R(i, 16)>>, IF i % 20 = 0 THEN 1 ELSE 0)],
+        [k \in 1..nb |-> <<ps[k][1], ps[k][2], 1 + (k % 3)>>]))
+ASSUME \A c \in DenseCounts : 2 * c[2] <= c[1] * (c[1] - 1)
+DenseMols == {Dense(c[1], c[2]) : c \in DenseCounts}
 
 Inputs ==
-       {<<m, v, 0>> : m \in Single \cup Many \cup Big, v \in Versions}
+       {<<m, v, 0>> : m \in Single \cup Many \cup Big \cup DenseMols, v \in Versions}
   \cup {<<m, v, d>> : m \in Pairs \cup Triples, v \in Versions, d \in IF Rich THEN {0, 1, 9} ELSE {0, 1}}
 
 Pending == [ctab |-> [oc |-> "pending", lines |-> <<>>, back |-> EmptyBack, alt |-> <<>>, kb |-> {}, lenient |-> FALSE, dom |-> FALSE],
